@@ -94,11 +94,15 @@ def fsub(a, b):
 class Shadow:
     """Plain-float replay of Model.v for one prior, recording the oracle table."""
 
-    def __init__(self, spec, table):
+    def __init__(self, spec, table, gate=None):
+        """spec: the prior whose MESSAGE is used; gate: the prior whose limits are enforced (default: the same)."""
         self.T = table
         self.fam = spec["family"]
         self.lo = unhex(spec["lo"])
         self.hi = unhex(spec["hi"])
+        g = gate or spec
+        self.glo = unhex(g["lo"])
+        self.ghi = unhex(g["hi"])
         self.mean = unhex(spec.get("mean", 0.0))
         self.sigma = unhex(spec.get("sigma", 1.0))
         if self.fam == "uniform":
@@ -108,6 +112,7 @@ class Shadow:
             self.bm, self.bs = 0.0, 1.0
             self.shift = self.T.call("log10", self.lo)
             self.scale = self.T.call("log10", fdiv(self.hi, self.lo))
+            self.T.call("log10", self.hi)      # asked for by the repaired LogUniformPrior (ratio overflow guard) only
         else:
             self.bm, self.bs = self.mean, self.sigma
 
@@ -149,8 +154,8 @@ class Shadow:
         return self.T.call("ndtr", fdiv(fsub(z, self.bm), self.bs))
 
     def random_unit(self, l, u, r):
-        lul = self.unit(self.lo)
-        uul = self.unit(self.hi)
+        lul = self.unit(self.glo)
+        uul = self.unit(self.ghi)
         a = lul if lul > l else l          # max(l, lul)
         b = uul if uul < u else u          # min(u, uul)
         return fadd(a, fmul(fsub(b, a), r))
@@ -161,11 +166,24 @@ def first_random(seed):
     return random.Random(seed).random()
 
 
-def tables_for_prior(spec, observations, results):
+def tables_for_prior(spec, observations, results, gate=None):
     """Table covering every observation of one prior case.  `results` are the implementation's
     outputs (needed for round trips: the cdf is tabulated at the value the code returned)."""
     T = Table()
-    sh = Shadow(spec, T)
+    sh = Shadow(spec, T, gate)
+    if sh.fam == "loguniform" and not math.isfinite(fdiv(sh.hi, sh.lo)):
+        # tables for both readings of the scale (as coded: log10(hi/lo) = inf; repaired: log10 hi - log10 lo)
+        alt = Shadow(spec, T, gate)
+        alt.scale = fsub(T.call("log10", sh.hi), sh.shift)
+        shadows = [sh, alt]
+    else:
+        shadows = [sh]
+    for sh in shadows:
+        _fill(sh, observations, results)
+    return T.dump()
+
+
+def _fill(sh, observations, results):
     for o, r in zip(observations, results):
         t = o["t"]
         if t in ("value", "raw"):
@@ -177,16 +195,24 @@ def tables_for_prior(spec, observations, results):
         elif t == "unit":
             sh.unit(unhex(o["x"]))
         elif t == "limits":
-            sh.unit(sh.lo)
-            sh.unit(sh.hi)
+            sh.unit(sh.glo)
+            sh.unit(sh.ghi)
         elif t == "random":
             rr = first_random(o["seed"])
             sh.raw(sh.random_unit(unhex(o["l"]), unhex(o["u"]), rr))
-    return T.dump()
 
 
 def tables_for_vector(specs, us):
     T = Table()
     for spec, u in zip(specs, us):
-        Shadow(spec, T).raw(unhex(u))
+        sh = Shadow(spec, T)
+        sh.raw(unhex(u))
+        if sh.fam == "loguniform" and not math.isfinite(fdiv(sh.hi, sh.lo)):
+            sh.scale = fsub(T.call("log10", sh.hi), sh.shift)
+            sh.raw(unhex(u))
     return T.dump()
+
+
+def versions():
+    import scipy
+    return {"numpy": np.__version__, "scipy": scipy.__version__}
